@@ -92,7 +92,10 @@ void EntityHDF5::forceCreatedAt(time_t t) {
 
 
 bool EntityHDF5::isValidEntity() const {
-    return group().referenceCount() > 0;
+    // the entity is valid while it can still be reached from the root of the file.  The HDF5 link count is not
+    // enough: a link held by the deleted object itself (alias range dimension, a section linked to itself) or by an
+    // already deleted holder that is still open keeps the count positive although the entity is gone
+    return group().referenceCount() > 0 && group().isLinked();
 }
 
 
